@@ -31,6 +31,9 @@ SPEC = Spec(
     ],
     assumptions=[
         "every encoded (sub)message is shorter than 2^63 bytes (Go int length)",
-        "payloads are values of the generated structs reachable through the public pdata API or through a decoder",
+        "payloads are values of the generated structs reachable through the public pdata API or through a decoder; the API surface is "
+        "modelled by the predicate ApiBuilt (no accessor reaches a Deprecated* field; bytes are bytes), checked per run on harness-built payloads",
+        "FloatLaws: strconv.ParseFloat(json.Marshal(f)) = f for finite f, ParseFloat(NaN/Infinity/-Infinity) special values, jsoniter "
+        "ReadFloat64 agrees with ParseFloat (validated on every sampled double, not proved)",
     ],
 )
